@@ -779,19 +779,24 @@ theorem lastT_append_printE (a : List Tok) (e : E) : lastT (a ++ printE e) = las
   | nil => exact absurd h (printE_ne_nil e)
   | cons t ts => exact lastT_append_cons a t ts
 
-theorem semicolon_partial_aux (isPfx : Nat → Bool) (e : E) (h : H3 isPfx e = true) :
+theorem lastT_wrapped (pre : List Tok) (e : E) : lastT (pre ++ ([Tok.lp] ++ printE e ++ [Tok.rp])) = some .rp := by
+  have : pre ++ ([Tok.lp] ++ printE e ++ [Tok.rp]) = (pre ++ [Tok.lp] ++ printE e) ++ Tok.rp :: [] := by simp
+  rw [this]; exact lastT_append_cons _ _ _
+
+theorem semicolon_aux (isPfx : Nat → Bool) (e : E) (h : numeralsAreNotPrefix isPfx e = true) :
     endsCallable isPfx (printE e) = expressionEndsWithPrefix isPfx e := by
   induction e with
   | atom k => rfl
   | negnum k =>
-    have : isPfx k = false := by simpa [H3] using h
+    have : isPfx k = false := by simpa [numeralsAreNotPrefix] using h
     simp [printE, endsCallable, lastT, expressionEndsWithPrefix, this]
   | paren e _ =>
     have : lastT (printE (.paren e)) = some .rp := by
       simp only [printE]; exact lastT_append_cons _ _ _
     simp only [endsCallable, this, expressionEndsWithPrefix]
   | ifexp c a b _ _ ihb =>
-    have hb : H3 isPfx b = true := by simpa [H3] using h
+    have hb : numeralsAreNotPrefix isPfx b = true := by
+      simp only [numeralsAreNotPrefix, Bool.and_eq_true] at h; exact h.2
     have : lastT (printE (.ifexp c a b)) = lastT (printE b) := by
       simp only [printE]; exact lastT_append_printE _ b
     simp only [endsCallable, this, expressionEndsWithPrefix]
@@ -803,16 +808,29 @@ theorem semicolon_partial_aux (isPfx : Nat → Bool) (e : E) (h : H3 isPfx e = t
       simpa [lastT] using this
     simp only [endsCallable, this, expressionEndsWithPrefix]
   | un u x ih =>
-    have h' : unaryNeedsParentheses x = false ∧ H3 isPfx x = true := by simpa [H3] using h
-    have : lastT (printE (.un u x)) = lastT (printE x) := by
-      simp only [printE, h'.1, Bool.false_eq_true, if_false]; exact lastT_append_printE _ x
-    simp only [endsCallable, this, expressionEndsWithPrefix]
-    exact ih h'.2
+    have hx : numeralsAreNotPrefix isPfx x = true := by simpa [numeralsAreNotPrefix] using h
+    cases hn : unaryNeedsParentheses x with
+    | true =>
+      have : lastT (printE (.un u x)) = some .rp := by
+        simp only [printE, hn, if_true]; exact lastT_wrapped _ x
+      simp only [endsCallable, this, expressionEndsWithPrefix, hn, Bool.true_or]
+    | false =>
+      have : lastT (printE (.un u x)) = lastT (printE x) := by
+        simp only [printE, hn, Bool.false_eq_true, if_false]; exact lastT_append_printE _ x
+      simp only [endsCallable, this, expressionEndsWithPrefix, hn, Bool.false_or]
+      exact ih hx
   | bin o l r _ ihr =>
-    have h' : rightNeedsParentheses o r = false ∧ H3 isPfx r = true := by simpa [H3] using h
-    have : lastT (printE (.bin o l r)) = lastT (printE r) := by
-      simp only [printE, h'.1, Bool.false_eq_true, if_false]; exact lastT_append_printE _ r
-    simp only [endsCallable, this, expressionEndsWithPrefix]
-    exact ihr h'.2
+    have hr : numeralsAreNotPrefix isPfx r = true := by
+      simp only [numeralsAreNotPrefix, Bool.and_eq_true] at h; exact h.2
+    cases hn : rightNeedsParentheses o r with
+    | true =>
+      have : lastT (printE (.bin o l r)) = some .rp := by
+        simp only [printE, hn, if_true]; exact lastT_wrapped _ r
+      simp only [endsCallable, this, expressionEndsWithPrefix, hn, Bool.true_or]
+    | false =>
+      have : lastT (printE (.bin o l r)) = lastT (printE r) := by
+        simp only [printE, hn, Bool.false_eq_true, if_false]; exact lastT_append_printE _ r
+      simp only [endsCallable, this, expressionEndsWithPrefix, hn, Bool.false_or]
+      exact ihr hr
 
 end DarkluaModel.C02
